@@ -39,7 +39,7 @@ TRUSTED = [
     "translator lib/c38_tygraph.py: lexical extraction of struct/enum/type items and `unsafe impl Send/Sync` from "
     "crates/emmylua_code_analysis/src and crates/emmylua_parser/src; type names resolved by last path segment; REVIEWED table of "
     "external leaf types (PRIM / TRANSPARENT / ARC / CELL / MUTEX / RWLOCK / BAD in that file); unknown -> obligation fails",
-    "rustc: compiles hook H3 (commit 0e5098d) `assert_sync::<T: Sync + Send>` for LuaCompilation, LuaDiagnostic, Arc<Emmyrc>, DbIndex and "
+    "rustc: compiles hook H3 (commit cfbabdf) `assert_sync::<T: Sync + Send>` for LuaCompilation, LuaDiagnostic, Arc<Emmyrc>, DbIndex and "
     "every index — the authoritative check of the static half",
     "the dynamic run observes only the schedules the OS produced; it cannot prove absence of races",
 ]
